@@ -474,7 +474,6 @@ class SqlImpl(TableImpl):
                 query.partition_by = nd.group_by
 
         elif isinstance(nd, verbs.Ungroup):
-            assert not (query.partition_by and query.group_by)
             query.partition_by.clear()
 
         elif isinstance(nd, verbs.Join):
